@@ -4,6 +4,7 @@ import (
 	"os"
 	"path/filepath"
 	"strings"
+	"syscall"
 	"testing"
 )
 
@@ -76,7 +77,7 @@ func TestC03(t *testing.T) {
 	if r.Thorough() {
 		depth = 4
 	}
-	r.Rule("all request sequences of length <= depth over a 36-request alphabet covering the 15 opcodes in success and failure form plus unknown opcodes, x writing enabled/disabled; every truncation point of every request as last request after every 1-request prefix; whole/1-byte/7-byte delivery; a case is distinct by (allow-write, executed request prefix, delivery)")
+	r.Rule("all request sequences of length <= depth over a 36-request alphabet covering the 15 opcodes in success and failure form plus unknown opcodes, x writing enabled/disabled; every truncation point of every request as last request after every 1-request prefix; whole/1-byte/7-byte delivery; an upload whose storing fails (ENOSPC, EIO, partial write) at every write of a 70000-byte payload with three transfer buffer configurations; a case is distinct by (allow-write, executed request prefix, delivery)")
 	r.Extra("depth", depth)
 	r.Extra("alphabet", len(alpha))
 
@@ -212,6 +213,61 @@ func TestC03(t *testing.T) {
 			}
 			runOne(true, seq, d)
 		}
+	}
+	// (5) an upload whose storing fails half-way (disk full, I/O error, partial write) at every write of the
+	// payload: the server must still consume exactly the announced payload, answer the failure code (or end the
+	// connection) and stay in step for the following requests
+	{
+		big := patBytes(5, 0, 70000)
+		probe := []Req{mkReq(opOpenFile, "/f.bin"), rdReq(3, 2000), rdcReq(0, 2048)}
+		mkM := func() *Model { return newModel(cw.w.Root, true) }
+		fcase := 0
+		for _, bs := range []int{0, 1000, -1} {
+			sc := c13Scenario{name: sprintf("store-failure(buffer %d)", bs), allow: true, buf: bs, probe: probe, reqs: []Req{
+				mkReq(opCreateFile, "/w/new.bin"), wrReq(big), mkReq(opStatFile, "/f.bin"), wrReq([]byte("abc")), mkReq(opStatFile, "/nope"),
+				mkReq(opOpenDir, "/d2"), noargReq(opReadDirEntry), mkReq(opDeleteFile, "/w/new.bin"), mkReq(opStatFile, "/d2")}}
+			base := c13Run(t, cw.w.Root, sc, mkM, faultPlan{}, cw.resetW)
+			r.Transition(int64(len(base.steps)))
+			if base.why != "" {
+				if r.Shard == 0 {
+					r.Violation("C03:store-failure:fault-free:"+base.sig, sc.name+" without any fault: "+base.why, map[string]any{"requests": sc.reqs, "steps": base.steps})
+				}
+				continue
+			}
+			nw := 0
+			for i, ev := range base.events {
+				if ev.Op != "Write" && ev.Op != "WriteAt" && ev.Op != "WriteString" {
+					continue
+				}
+				nw++
+				if bs == 1000 && nw > 6 && nw%7 != 0 && !r.Thorough() {
+					continue // 70 writes of 1000 bytes: the first six and every seventh
+				}
+				for _, f := range []FsFault{{Err: syscall.ENOSPC}, {Err: syscall.EIO}, {Err: syscall.ENOSPC, Short: 1}, {Err: syscall.ENOSPC, Short: (ev.N + 1) / 2}} {
+					if f.Short >= ev.N && f.Short > 0 {
+						continue
+					}
+					fcase++
+					if !r.Mine(fcase) {
+						continue
+					}
+					p := faultPlan{At: map[int]FsFault{i: f}, Desc: []string{sprintf("%v(short=%d)@%d:%s", f.Err, f.Short, i, ev.Op)}}
+					res := c13Run(t, cw.w.Root, sc, mkM, p, cw.resetW)
+					r.Transition(int64(len(res.steps)) + 1)
+					r.Eval(1)
+					key := sprintf("%s|%v", sc.name, p.Desc)
+					r.State(key)
+					r.Nontrivial(key)
+					for _, st := range res.steps {
+						r.Outcome("store-failure:" + st.Class)
+					}
+					if res.why != "" {
+						r.Violation("C03:store-failure:"+res.sig, sprintf("%s, %v: %s", sc.name, p.Desc, res.why), map[string]any{"requests": sc.reqs, "plan": p, "steps": res.steps})
+					}
+				}
+			}
+		}
+		cw.resetW()
 	}
 	// (4) deep explicit-state search: histories are merged by the reference model's abstract state
 	// (open directory + remaining entries, open read file, open write file, digest of the writable subtree);
